@@ -241,24 +241,24 @@ PROPS = {
                        "three functions by exact output equality on an exhaustive small scope + random strings."),
     },
     "C01": {
-        "module": "FBV.Props.C01",
-        "theorems": ['FBV.C01.step_sat', 'FBV.C01.sat_conserves', 'FBV.C01.fifo_history', 'FBV.C01.only_clear_discards', 'FBV.step_WInv', 'FBV.reachable_WInv'],
+        "module": "FBV.Props.C01b",
+        "theorems": ["FBV.C01.stepWV_sat", "FBV.C01.stepRV_sat", 'FBV.C01.step_sat', 'FBV.C01.sat_conserves', 'FBV.C01.fifo_history', 'FBV.C01.only_clear_discards', 'FBV.step_WInv', 'FBV.reachable_WInv'],
         "level_text": "Kernel-checked: for EVERY state with ri<=wi<=SIZE, EVERY public call (all write paths, all read paths incl. deframe/io::Read/try_parse scripts, shift, clear) with EVERY argument and both overflow-check settings, the unread bytes change exactly by what the call hands out / accepts and len()/is_empty() describe them (step_sat); lifted by induction to every finite history from any constructor (fifo_history: taken ++ readable = initial ++ accepted). The model's step function is tied to the real FixedBuf transition by transition from the implementation's own observed state (exhaustive for small SIZE, random walks up to SIZE 4096), and the same executable predicate Sat_C01 is evaluated on the implementation's transitions.",
         "jobs": t1_jobs(["dev"]),
         "tie": "T1 (transition-level, from the implementation's observed state)",
         "rule": T1_RULE,
     },
     "C03": {
-        "module": "FBV.Props.C03",
-        "theorems": ['FBV.C03.step_sat', 'FBV.C03.history_capacity', 'FBV.step_WInv', 'FBV.reachable_WInv'],
+        "module": "FBV.Props.C01b",
+        "theorems": ["FBV.C01.stepWV_sat", "FBV.C01.stepRV_sat", 'FBV.C03.step_sat', 'FBV.C03.history_capacity', 'FBV.step_WInv', 'FBV.reachable_WInv'],
         "level_text": 'Kernel-checked for every weakly well-formed state, every call, every argument, both profiles: a write of n bytes succeeds iff n<=free and shrinks the free space by exactly n; a refused write changes nothing; shift/clear/draining reads reclaim all capacity; reads, queries and failed calls never shrink the free space; len+free<=SIZE over every history. Tied to the code by the T1 transition correspondence with boundary lengths free-1, free, free+1 generated by construction.',
         "jobs": t1_jobs(["dev"]),
         "tie": "T1",
         "rule": T1_RULE,
     },
     "C04": {
-        "module": "FBV.Props.C04",
-        "theorems": ['FBV.C04.step_sat', 'FBV.C04.read_bytes_contract', 'FBV.C04.wrote_contract', 'FBV.C04.Legacy.legacy_wrote_silently_succeeds', 'FBV.C04.Legacy.legacy_read_bytes_unconsumes', 'FBV.C04.Legacy.legacy_wrote_dev_panics'],
+        "module": "FBV.Props.C01b",
+        "theorems": ["FBV.C01.stepWV_sat", "FBV.C01.stepRV_sat", 'FBV.C04.step_sat', 'FBV.C04.read_bytes_contract', 'FBV.C04.wrote_contract', 'FBV.C04.Legacy.legacy_wrote_silently_succeeds', 'FBV.C04.Legacy.legacy_read_bytes_unconsumes', 'FBV.C04.Legacy.legacy_wrote_dev_panics'],
         "level_text": 'Kernel-checked for BOTH values of the overflow-check flag and every count n (unbounded Nat, so every usize): read_byte/read_bytes(n) panic iff n>len(), wrote(n) iff n>writable().len(), no other call panics with contract-honouring collaborators, and a panicking call (incl. a panicking reader inside copy_once_from) leaves indices and unread bytes unchanged. The correspondence runs the real code in BOTH build profiles (dev: overflow checks on; release: off) with wrap-around counts. The defect found on the pinned tree (release: wrote(usize::MAX) silently un-commits) is recorded as theorems about the legacy functions and was repaired by a fix: commit.',
         "jobs": t1_jobs(["dev", "release"]),
         "tie": "T1 in both build profiles (overflow checks on / off)",
